@@ -30,7 +30,13 @@ open MindsVerif.Fallback MindsVerif.Gen
 
 /-- the live tables -/
 def G : Tables :=
-  ⟨SaTables.typesMapKeys, SaTables.methods, SaTables.functionsKeys, SaTables.opmap, SaTables.listOps, SaTables.textHas⟩
+  { typesMap := SaTables.typesMapKeys, methods := SaTables.methods, functions := SaTables.functionsKeys,
+    opmap := SaTables.opmap, listOps := SaTables.listOps, textHas := SaTables.textHas,
+    tupleIsList := SaTables.tupleIsList, dupExc := excOfProbe SaTables.dupExc }
+
+/-- the tables once fixes/C17_1.diff (Tuples become `sa.tuple_`) and fixes/C17_3.diff (`RenderError` is a
+SQLAlchemyError) have landed; `G` becomes equal to it by itself because both facts are probed -/
+def Gr : Tables := { G with tupleIsList := false, dupExc := .sa }
 
 /-- what the hand model hard-codes about the source, pinned against the regenerated data -/
 theorem pins :
@@ -54,14 +60,14 @@ theorem core_types :
 /-! ## T17.1 the wrapper -/
 
 /-- **T17.1**: the wrapper for all inner behaviours -/
-theorem C17_wrapper {ρ : Type} (inner : Outcome ρ) (printer : Outcome String) (fb : Bool) (dn : String) :
-    (∀ r, inner = .ret r → getExecParams inner printer fb dn = .rendering r)
-    ∧ (∀ e, inner = .raise e → e.caught = false → getExecParams inner printer fb dn = .raised e)
-    ∧ (∀ e, inner = .raise e → fb = false → getExecParams inner printer fb dn = .raised e)
+theorem C17_wrapper {ρ : Type} (inner : Outcome ρ) (printer : Outcome String) (fb : Bool) (dn : String) (kl : Bool) :
+    (∀ r, inner = .ret r → getExecParams inner printer fb dn kl = .rendering r)
+    ∧ (∀ e, inner = .raise e → e.caught = false → getExecParams inner printer fb dn kl = .raised e)
+    ∧ (∀ e, inner = .raise e → fb = false → getExecParams inner printer fb dn kl = .raised e)
     ∧ (∀ e s, inner = .raise e → e.caught = true → fb = true → printer = .ret s →
-        getExecParams inner printer fb dn = .fallback (fallbackText dn s))
+        getExecParams inner printer fb dn kl = .fallback (fallbackText kl dn s))
     ∧ (∀ e e', inner = .raise e → e.caught = true → fb = true → printer = .raise e' →
-        getExecParams inner printer fb dn = .raised e') := by
+        getExecParams inner printer fb dn kl = .raised e') := by
   refine ⟨?_, ?_, ?_, ?_, ?_⟩
   · intro r h; subst h; rfl
   · intro e h hc; subst h; simp [getExecParams, hc]
@@ -71,8 +77,8 @@ theorem C17_wrapper {ρ : Type} (inner : Outcome ρ) (printer : Outcome String) 
 
 /-- with fallback: never raises ⇔ the inner rendering raises only the caught classes and, when it
 raised, the fallback printer returns -/
-theorem C17_never_raises_iff {ρ : Type} (inner : Outcome ρ) (printer : Outcome String) (dn : String) :
-    (getExecParams inner printer true dn).isRaised = false ↔
+theorem C17_never_raises_iff {ρ : Type} (inner : Outcome ρ) (printer : Outcome String) (dn : String) (kl : Bool := false) :
+    (getExecParams inner printer true dn kl).isRaised = false ↔
       (match inner with
        | .ret _ => True
        | .raise e => e.caught = true ∧ ∃ s, printer = .ret s) := by
@@ -88,10 +94,10 @@ theorem C17_never_raises_iff {ρ : Type} (inner : Outcome ρ) (printer : Outcome
 
 /-- without fallback: whatever the inner rendering raises propagates unchanged (and nothing else is
 raised); so only caught classes come out ⇔ the inner rendering raises only caught classes -/
-theorem C17_without_fallback {ρ : Type} (inner : Outcome ρ) (printer : Outcome String) (dn : String) :
-    (∀ e, getExecParams inner printer false dn = .raised e ↔ inner = .raise e)
-    ∧ (∀ r, getExecParams inner printer false dn = .rendering r ↔ inner = .ret r)
-    ∧ (∀ s, getExecParams inner printer false dn ≠ .fallback s) := by
+theorem C17_without_fallback {ρ : Type} (inner : Outcome ρ) (printer : Outcome String) (dn : String) (kl : Bool := false) :
+    (∀ e, getExecParams inner printer false dn kl = .raised e ↔ inner = .raise e)
+    ∧ (∀ r, getExecParams inner printer false dn kl = .rendering r ↔ inner = .ret r)
+    ∧ (∀ s, getExecParams inner printer false dn kl ≠ .fallback s) := by
   cases inner with
   | ret r => simp [getExecParams]
   | raise e => cases hc : e.caught <;> simp [getExecParams, hc]
@@ -125,11 +131,11 @@ theorem C17_unop_iff (tb : Tables) (op : String) (al : Al) (kids : List T) :
     okExc (post tb .expr (.unop op al) kids) =
       (match tb.opmap.lookup (upper op) with
        | none => true
-       | some m => okExc (callMethod tb (kindAt kids 0) .col m)) := by
+       | some m => okExc (callMethod tb (kindAt tb kids 0) .col m)) := by
   cases hl : tb.opmap.lookup (upper op) with
   | none => simp [post, hl, okExc, Exc.caught]
   | some m =>
-    cases hm : callMethod tb (kindAt kids 0) .col m with
+    cases hm : callMethod tb (kindAt tb kids 0) .col m with
     | some e => simp [post, hl, hm, orElse, okExc]
     | none =>
       cases al with
@@ -137,7 +143,7 @@ theorem C17_unop_iff (tb : Tables) (op : String) (al : Al) (kids : List T) :
       | some n => by_cases hn : n > 1 <;> simp [post, hl, hm, orElse, okExc, getAlias, hn, Exc.caught]
 
 def isTableTag : Tag → Bool
-  | .ident _ _ _ | .select _ _ | .union _ | .grp | .nil => true
+  | .ident _ _ _ | .select _ _ | .union _ _ | .grp | .nil => true
   | _ => false
 
 /-- anything but an Identifier / Select / Union in table position is a NotImplementedError -/
@@ -157,11 +163,12 @@ theorem C17_create_table_ok (tb : Tables) (tbl : TblName) (cols : Option (List C
       | ident n => by_cases hn : n > 2 <;> simp [pre, isStructural, h, orElse, tableName, okExc, hn, Exc.caught]
     · simp [pre, isStructural, h, orElse, okExc, Exc.caught]
 
-/-- INSERT: a duplicate column name is a `RenderError` (an `Exception`) unless the table path is too long -/
+/-- INSERT: a duplicate column name raises `RenderError` (class probed: `tb.dupExc`) unless the table path is too long -/
 theorem C17_insert_dup_iff (tb : Tables) (tbl : TblName) (cs : List String) (p h : Bool) (kids : List T) :
-    okExc (pre tb .stmt (.insert tbl (some cs) p h) kids) = ((tableName tbl).isSome || !firstDup [] cs) := by
+    okExc (pre tb .stmt (.insert tbl (some cs) p h) kids)
+      = ((tableName tbl).isSome || !firstDup [] cs || tb.dupExc.caught) := by
   cases tbl with
-  | notIdent => cases hd : firstDup [] cs <;> simp [pre, isStructural, orElse, tableName, okExc, hd, Exc.caught]
+  | notIdent => cases hd : firstDup [] cs <;> simp [pre, isStructural, orElse, tableName, okExc, hd]
   | ident n =>
     by_cases hn : n > 2 <;> cases hd : firstDup [] cs <;>
       simp [pre, isStructural, orElse, tableName, okExc, hd, hn, Exc.caught]
@@ -276,8 +283,8 @@ theorem C17_fixed_serial :
     ∧ (prepareCols G [⟨some "SERIAL", false⟩, ⟨some "foo", false⟩]) = ([⟨some "SERIAL", false⟩, ⟨some "foo", false⟩], some .notImpl) := by
   decide
 
-/-- `select -(a, b)` → AttributeError; `select (a, b) + 1` → TypeError; `select (a, b) - 1`, `(a, b) like c` → AttributeError -/
-theorem C17_witness_tuple_operand :
+/-- (as long as the probe says `to_expression(Tuple)` is a Python list) `select -(a, b)` → AttributeError; `select (a, b) + 1` → TypeError; `select (a, b) - 1`, `(a, b) like c` → AttributeError -/
+theorem C17_witness_tuple_operand : SaTables.tupleIsList = true →
     saRaises G false .stmt (sel [.mk (.unop "-" none) [tup [col "a", col "b"]]]) = some .attr
     ∧ saRaises G false .stmt (sel [.mk (.binop "+" none) [tup [col "a", col "b"], .mk (.const none) []]]) = some .type
     ∧ saRaises G false .stmt (sel [.mk (.binop "-" none) [tup [col "a", col "b"], .mk (.const none) []]]) = some .attr
@@ -285,33 +292,75 @@ theorem C17_witness_tuple_operand :
     ∧ saRaises G false .stmt (sel [.mk .star []] (.mk .nil []) (.mk (.binop "in" none) [col "a", tup [.mk (.const none) []]])) = none := by
   decide
 
-/-- `insert into t (a, a) values (1, 2)` → RenderError -/
-theorem C17_witness_insert_dup :
+/-- (as long as the probe says `RenderError` is a plain `Exception`) `insert into t (a, a) values (1, 2)` → RenderError,
+through the fallback -/
+theorem C17_witness_insert_dup : SaTables.dupExc = "exception" →
     saRaises G false .stmt (.mk (.insert (.ident 1) (some ["a", "a"]) false true) [.mk .grp [.mk (.const none) [], .mk (.const none) []]])
       = some .exception
-    ∧ ∀ p, getExecParams (innerOf G false
+    ∧ getExecParams (innerOf G false
         (.mk (.insert (.ident 1) (some ["a", "a"]) false true) [.mk .grp [.mk (.const none) [], .mk (.const none) []]]) (.ret "sql"))
-        p true "mysql" = .raised .exception := by
-  refine ⟨by decide, fun p => ?_⟩
-  have : innerOf G false
-      (.mk (.insert (.ident 1) (some ["a", "a"]) false true) [.mk .grp [.mk (.const none) [], .mk (.const none) []]]) (.ret "sql")
-      = .raise .exception := by decide
-  rw [this]; rfl
+        (.ret "s") true "mysql" = .raised .exception := by
+  decide
 
-/-- postgres: the fallback text is `str(ast)` with every back-tick removed — also inside string constants -/
+/-- postgres: today (`keepLiteral = false`) the fallback text is `str(ast)` with every back-tick removed — also inside
+string constants; the repaired scanner (fixes/C17_7.diff, `keepLiteral = true`) removes identifier quotes only -/
 theorem C17_witness_pg_backtick :
-    getExecParams (Outcome.raise .notImpl : Outcome String) (.ret "SELECT 'a`b' FROM a.b.c.d") true "postgresql"
-      = .fallback "SELECT 'ab' FROM a.b.c.d"
+    getExecParams (Outcome.raise .notImpl : Outcome String) (.ret "SELECT 'a`b' FROM `x y`.b.c.d") true "postgresql" false
+      = .fallback "SELECT 'ab' FROM x y.b.c.d"
+    ∧ getExecParams (Outcome.raise .notImpl : Outcome String) (.ret "SELECT 'a`b' FROM `x y`.b.c.d") true "postgresql" true
+      = .fallback "SELECT 'a`b' FROM x y.b.c.d"
     ∧ getExecParams (Outcome.raise .notImpl : Outcome String) (.ret "SELECT 'a`b' FROM a.b.c.d") true "mysql"
       = .fallback "SELECT 'a`b' FROM a.b.c.d" := by decide
 
-/-- hence the full statement is false -/
+/-- the repaired scanner is the identity on texts without back-ticks (and `stripBackticks` always was) -/
+theorem C17_pg_scanner_identity (s : List Char) (h : ∀ c ∈ s, c ≠ '`') :
+    stripOutside (String.ofList s) = String.ofList s := by
+  unfold stripOutside
+  rw [String.toList_ofList, stripOutsideAux_no_backtick s false false false h]
+
+/-- the full statement is false whatever is repaired in the renderer: SQLAlchemy's own part may raise anything -/
 theorem C17_full_false : ¬ C17_full := by
   intro h
-  have := (h (.mk (.insert (.ident 1) (some ["a", "a"]) false true) [.mk .grp [.mk (.const none) [], .mk (.const none) []]])
-    false (.ret "sql") (.ret "s") "mysql").1
-  rw [(C17_witness_insert_dup.2 (.ret "s"))] at this
-  simp [Result.isRaised] at this
+  have := (h (sel [.mk (.const none) []]) false (.raise .key) (.ret "s") "mysql").1
+  revert this
+  decide
+
+/-! ## after fixes/C17_1.diff + C17_3.diff: the hypothesis `clean` disappears -/
+
+/-- **T17.2 (repaired)**: once Tuples are rendered as sqlalchemy tuples and `RenderError` is a caught class, EVERY
+parser-shaped tree is clean — for all trees, contexts, tables.  `shaped` is an invariant of parser output (no Star as the
+receiver of an operator, `f(DISTINCT)` has an argument, NativeQuery aliases have a part, `prepare_select` only gets
+Select / Union): it is evaluated by the driver on every parsed tree of the streams. -/
+theorem C17_repaired_clean (tb : Tables) (w : Bool) (c : Ctx) (t : T) (h1 : tb.tupleIsList = false)
+    (h2 : tb.dupExc.caught = true) (hs : shaped tb w c t = true) : clean tb w c t = true :=
+  shaped_clean tb w h1 h2 c t hs
+
+/-- … hence the renderer's own code raises only the caught classes … -/
+theorem C17_repaired_own_tables (tb : Tables) (w : Bool) (c : Ctx) (t : T) (h1 : tb.tupleIsList = false)
+    (h2 : tb.dupExc.caught = true) (hs : shaped tb w c t = true) :
+    saRaises tb w c t = none ∨ saRaises tb w c t = some .sa ∨ saRaises tb w c t = some .notImpl :=
+  C17_own_tables tb w c t (shaped_clean tb w h1 h2 c t hs)
+
+/-- … and the contract holds for every parser-shaped tree under the two behavioural hypotheses only -/
+theorem C17_partial_repaired {ρ : Type} (tb : Tables) (w : Bool) (t : T) (saPart : Outcome ρ) (printer : Outcome String)
+    (dn : String) (h1 : tb.tupleIsList = false) (h2 : tb.dupExc.caught = true) (hs : shaped tb w .stmt t = true)
+    (hsa : saQuiet saPart = true) (hpr : printerTotal printer = true) :
+    Honours tb w t saPart printer dn :=
+  C17_partial tb w t saPart printer dn (shaped_clean tb w h1 h2 .stmt t hs) hsa hpr
+
+/-- the former witnesses on the repaired tables `Gr` -/
+theorem C17_repaired_witnesses :
+    clean Gr false .stmt (sel [.mk (.unop "-" none) [tup [col "a", col "b"]]]) = true
+    ∧ clean Gr false .stmt (sel [.mk (.binop "+" none) [tup [col "a", col "b"], .mk (.const none) []]]) = true
+    ∧ clean Gr false .stmt (sel [.mk (.binop "like" none) [tup [col "a"], col "c"]]) = true
+    ∧ saRaises Gr false .stmt (.mk (.insert (.ident 1) (some ["a", "a"]) false true) [.mk .grp [.mk (.const none) [], .mk (.const none) []]]) = some .sa
+    ∧ Gr.tupleIsList = false ∧ Gr.dupExc.caught = true := by decide
+
+/-- `shaped` is not vacuous, and it is needed: a Star as the receiver of an operator is an AttributeError -/
+example : shaped Gr false .stmt (sel [.mk (.binop "+" none) [tup [col "a", col "b"], .mk (.func true false none) [col "a"]]]
+    (.mk (.join false "JOIN") [.mk (.ident 1 "t" none) [], .mk (.nativeQuery (some 1)) [], .mk .nil []])) = true := by decide
+example : shaped Gr false .stmt (sel [.mk (.binop "+" none) [.mk .star [], col "a"]]) = false
+    ∧ saRaises Gr false .stmt (sel [.mk (.binop "+" none) [.mk .star [], col "a"]]) = some .attr := by decide
 
 /-! ## non-vacuity of the hypotheses of `C17_partial` -/
 
